@@ -102,6 +102,71 @@ class _TrackedKw(dict):
         return set(dict.keys(self)) - self._read
 
 
+class SymKey(object):
+    """A dictionary key with symbolic parts (e.g. a cache keyed by an array's shape).  All numeric leaves hash alike, so
+    every key of the same skeleton lands in the same bucket and *equality* decides -- by a case split of the running
+    path (`interp.truth`) on the conjunction of the leaf equalities.  Python's dict calls __eq__ on hash-equal keys in a
+    deterministic order, so re-execution along a decision prefix takes the same decisions."""
+    __slots__ = ('key', 'ip', '_skel')
+
+    def __init__(self, key, ip):
+        self.key = key
+        self.ip = ip
+        self._skel = SymKey.skeleton(key)
+
+    @staticmethod
+    def skeleton(k):
+        if isinstance(k, tuple):
+            return tuple(SymKey.skeleton(x) for x in k)
+        if is_sym(k) or (is_num(k) and not isinstance(k, bool)):
+            return '#'
+        return k
+
+    @staticmethod
+    def symbolic(k):
+        if isinstance(k, tuple):
+            return any(SymKey.symbolic(x) for x in k)
+        return is_sym(k)
+
+    def __hash__(self):
+        return hash(self._skel)
+
+    def __eq__(self, other):
+        ok = other.key if isinstance(other, SymKey) else other
+        if SymKey.skeleton(ok) != self._skel:
+            return False
+        conds = []
+
+        def walk(a, b):
+            if isinstance(a, tuple):
+                for x, y in zip(a, b):
+                    walk(x, y)
+            elif is_sym(a) or is_sym(b) or (is_num(a) and not isinstance(a, bool)):
+                conds.append(mk_eq(a, b))
+        walk(self.key, ok)
+        return bool(self.ip.truth(mk_and(*conds))) if conds else True
+
+    def __repr__(self):
+        return 'SymKey(%r)' % (self.key,)
+
+
+class SDType(object):
+    """`a.dtype` of a numpy array: float64 / int64 / bool are the only element types the array model has."""
+    _INFO = {'real': ('<f8', 'f', 'float64', 8), 'int': ('<i8', 'i', 'int64', 8), 'bool': ('|b1', 'b', 'bool', 1)}
+
+    def __init__(self, kind):
+        self.kind = kind
+
+    def __eq__(self, other):
+        return isinstance(other, SDType) and other.kind == self.kind
+
+    def __hash__(self):
+        return hash(('SDType', self.kind))
+
+    def __repr__(self):
+        return 'dtype(%s)' % SDType._INFO[self.kind][2]
+
+
 class SFlags(object):
     """`a.flags` of a numpy array (only `.writeable`)."""
 
@@ -394,12 +459,20 @@ class Interp(object):
         m.loaded = True
         # module-level mutable containers are process state: every run (path, side) starts from the freshly imported module
         m.pristine = {}
+        m.pristine_cls = []
         for k, v in env.vars.items():
             if isinstance(v, (dict, list, set)):
                 try:
                     m.pristine[k] = _copy.deepcopy(v)
                 except Exception:       # noqa
                     pass
+            if isinstance(v, SClass) and v.module is m:
+                for ak, av in v.attrs.items():
+                    if isinstance(av, (dict, list, set)):
+                        try:
+                            m.pristine_cls.append((v, ak, _copy.deepcopy(av)))
+                        except Exception:       # noqa
+                            pass
         return env
 
     def reset_module_state(self):
@@ -407,6 +480,8 @@ class Interp(object):
             if m.env is not None and getattr(m, 'pristine', None):
                 for k, v in m.pristine.items():
                     m.env.vars[k] = _copy.deepcopy(v)
+            for cls, ak, av in getattr(m, 'pristine_cls', ()):
+                cls.attrs[ak] = _copy.deepcopy(av)
 
     def import_name(self, dotted):
         root = dotted.split('.')[0]
@@ -1073,10 +1148,27 @@ class Interp(object):
     def hashable(self, k):
         if isinstance(k, list):
             raise SymRaise('TypeError', 'unhashable list')
-        if is_sym(k) or (isinstance(k, tuple) and any(is_sym(x) for x in k)):
-            raise Unsupported('symbolic dictionary key')
         if isinstance(k, (SArr, dict)):
             raise SymRaise('TypeError', 'unhashable key')
+        if isinstance(k, tuple):
+            def bad(t):
+                return any(isinstance(x, (SArr, dict, list)) or (isinstance(x, tuple) and bad(x)) for x in t)
+            if bad(k):
+                raise SymRaise('TypeError', 'unhashable key')
+        if SymKey.symbolic(k):
+            return SymKey(k, self)
+        return k
+
+    def dkey(self, d, key):
+        """The key object under which `key` is looked up / stored in the Python dict d (see SymKey)."""
+        k = self.hashable(key)
+        has_sym = any(isinstance(x, SymKey) for x in d)
+        if isinstance(k, SymKey) or has_sym:
+            if not isinstance(k, SymKey):
+                k = SymKey(k, self)
+            for x in list(d):
+                if not isinstance(x, SymKey) and SymKey.skeleton(x) == k._skel:
+                    d[SymKey(x, self)] = d.pop(x)        # same skeleton: must take part in the equality decision
         return k
 
     def ev_key(self, node, env):
@@ -1177,11 +1269,34 @@ class Interp(object):
         if isinstance(container, (tuple, list, set)):
             acc = False
             for c in container:
+                cv = c
+                if isinstance(c, SOpt) and (isinstance(c.val, SArr) or isinstance(x, SArr)):
+                    if x is None and self.truth(c.isnone):
+                        return True
+                    cv = self.unopt(c, '`in`') if x is not None else c.val
+                if isinstance(cv, SArr) or isinstance(x, SArr):
+                    # `x in seq` is `any(x is c or x == c)`: an array compares elementwise and its truth value is
+                    # only defined for exactly one element
+                    if acc is not False and self.truth(acc):
+                        return True
+                    acc = False
+                    if self.identical(x, cv) is True:
+                        return True
+                    arr, other = (cv, x) if isinstance(cv, SArr) else (x, cv)
+                    if not self.truth(mk_eq(shape_size(arr.shape), 1)):
+                        raise SymRaise('ValueError', 'The truth value of an array with more than one element is ambiguous')
+                    if other is None or isinstance(other, (str, SStr, SObj, SRef)):
+                        continue
+                    e = yield from self.rich_compare('==', x, cv)
+                    one = e.elem(self.st, tuple(0 for _ in e.shape)) if isinstance(e, SArr) else e
+                    if self.truth(one):
+                        return True
+                    continue
                 e = yield from self.rich_compare('==', x, c)
                 acc = mk_or(acc, e)
             return acc
         if isinstance(container, dict):
-            return self.hashable(x) in container
+            return self.dkey(container, x) in container
         if isinstance(container, str):
             return x in container
         raise Unsupported('`in` on %r' % (container,))
@@ -1885,6 +2000,8 @@ class Interp(object):
                 return obj
             if name == 'flags':
                 return SFlags(obj)
+            if name == 'dtype':
+                return SDType(obj.dtype)
             return SBuiltin('ndarray.' + name, bound=obj)
         if isinstance(obj, list):
             return SBuiltin('list.' + name, bound=obj)
@@ -1896,6 +2013,13 @@ class Interp(object):
             if name == 'writeable':
                 return obj.arr.token not in getattr(self.st, 'readonly', ())
             raise Unsupported('ndarray.flags.%s' % name)
+        if isinstance(obj, SDType):
+            info = dict(zip(('str', 'kind', 'name', 'itemsize'), SDType._INFO[obj.kind]))
+            if name in info:
+                return info[name]
+            if name == 'char':
+                return {'real': 'd', 'int': 'l', 'bool': '?'}[obj.kind]
+            raise Unsupported('dtype.%s' % name)
         if isinstance(obj, SEnum):
             if name == 'value':
                 return obj.value
@@ -1963,10 +2087,11 @@ class Interp(object):
         if isinstance(obj, SMasked):
             raise Unsupported('indexing a masked selection')
         if isinstance(obj, dict):
-            k = self.hashable(key)
-            if k not in obj:
-                raise SymRaise('KeyError', repr(k))
-            return obj[k]
+            k = self.dkey(obj, key)
+            for kk in obj:                   # one equality decision per candidate (a second probe would split again)
+                if kk is k or (hash(kk) == hash(k) and kk == k):
+                    return obj[kk]
+            raise SymRaise('KeyError', repr(k))
         if isinstance(obj, (list, tuple, str)):
             if isinstance(key, slice):
                 if any(is_sym(x) for x in (key.start, key.stop, key.step)):
@@ -2003,7 +2128,7 @@ class Interp(object):
             self.arr_setitem(obj, key, v)
             return
         if isinstance(obj, dict):
-            obj[self.hashable(key)] = v
+            obj[self.dkey(obj, key)] = v
             return
         if isinstance(obj, list):
             if is_sym(key) or isinstance(key, slice):
